@@ -123,22 +123,22 @@ def lean_gate(pid):
         for i, line in enumerate(strip_comments(open(s).read()).split("\n")):
             if FORBIDDEN.search(line):
                 errors.append("forbidden token in %s:%d: %s" % (os.path.relpath(s, LEAN_DIR), i + 1, line.strip()[:80]))
-    r = subprocess.run(["lake", "build", "Bt.Props." + pid], cwd=LEAN_DIR, capture_output=True, text=True)
-    if r.returncode != 0:
-        errors.append("lake build Bt.Props.%s failed: %s" % (pid, (r.stdout + r.stderr)[-1500:]))
-        return [], errors
-    # the property's theorems: Props/Cxx.lean plus optional fragments Props/Cxx_*.lean (imported by Cxx.lean)
+    # the property's theorems: Props/Cxx.lean plus optional fragments Props/Cxx_*.lean (each built and audited)
     frag_dir = os.path.join(LEAN_DIR, "Bt", "Props")
-    frags = sorted(f for f in os.listdir(frag_dir) if f.startswith(pid + "_") and f.endswith(".lean"))
+    frags = sorted(f[:-5] for f in os.listdir(frag_dir) if f.startswith(pid + "_") and f.endswith(".lean"))
+    modules = ["Bt.Props." + pid] + ["Bt.Props." + f for f in frags]
+    r = subprocess.run(["lake", "build"] + modules, cwd=LEAN_DIR, capture_output=True, text=True)
+    if r.returncode != 0:
+        errors.append("lake build %s failed: %s" % (" ".join(modules), (r.stdout + r.stderr)[-1500:]))
+        return [], errors
     names = theorem_names(props_file)
-    main_txt = open(props_file).read()
     for f in frags:
-        if ("import Bt.Props." + f[:-5]) not in main_txt:
-            errors.append("fragment %s is not imported by Props/%s.lean" % (f, pid))
-        names += theorem_names(os.path.join(frag_dir, f))
+        names += theorem_names(os.path.join(frag_dir, f + ".lean"))
+    names = list(dict.fromkeys(names))
     audit = os.path.join(LEAN_DIR, ".lake", "Audit_%s.lean" % pid)
     with open(audit, "w") as f:
-        f.write("import Bt.Props.%s\n" % pid)
+        for m in modules:
+            f.write("import %s\n" % m)
         for n in names:
             f.write("#print axioms %s\n" % n)
     r = subprocess.run(["lake", "env", "lean", audit], cwd=LEAN_DIR, capture_output=True, text=True)
